@@ -248,7 +248,7 @@ def handle (j : Json) : P Json := do
       let anchor ← str a[2]!
       let headStart ← nat a[3]!
       let showRoot ← bool a[4]!
-      let toks := writeTree 64 nodes none anchor headStart showRoot 0
+      let toks := writeTree 100000 nodes none anchor headStart showRoot 0
       pure (Json.mkObj [("html", .str (renderToks toks)), ("dyck", .bool (dyck [] toks))])
   | "mkpart" => do
       let kind ← decPartKind (← str a[1]!)
